@@ -430,6 +430,13 @@ def run_chain(model, ops, direct=False, prefix="", keyfn=None):
     c = cmp_view(view(m0), v0)
     if c:
         return ("fail", K("parse", c[0], c[1], "-"), f"make_tree({spec_newick(model)!r}): {c[2]}")
+    if ops and ops[0] == ["params"]:
+        # edges that carry a further parameter besides their length (annotated or JSON-loaded trees do): set on the real tree,
+        # never read by the model -- it must not matter to any operation
+        for nd in t.preorder():
+            if nd is not t:
+                nd.params["support"] = 0.5
+        ops = ops[1:]
     t_first, snap_first, first_name = t, snapshot(t), None
     where = spec_newick(model) if not direct else repr(model)
     done = []
@@ -587,6 +594,9 @@ def gen_transform(tier, seed):
         ops = unary_ops() + [["deepcopy"], ["sorted", n]] + arg_ops(n, (0, 1, 2, 3, 4), thin=1 if n <= 5 else 3)
         for op in ops:
             yield [m, [op]]
+        if n >= 4:      # the same tree with a further parameter on every edge
+            for op in unary_ops() + arg_ops(n, (0, 2), thin=1 if n <= 5 else 2):
+                yield [m, [["params"], op]]
     # trees whose root already sits on the midpoint of the longest path, with lengths that are not exact in binary
     for n, m in models(range(2, 6) if thorough else range(2, 5), ("decimal", "cycle"), rnd, mirrors=(False, True)):
         for w in (0.1, 0.3, 1.1):
